@@ -294,7 +294,7 @@ def derive(lines, stderr):
         n = int(h[1:])
         if n not in conns:
             conns[n] = {"ev": [], "tok": [], "phase": "listening", "acc": False, "url": None, "s101": None, "statuses": [],
-                        "sent101": False, "closed_step": None, "accept_step": None, "allocfail": []}
+                        "sent101": False, "closed_step": None, "accept_step": None, "allocfail": [], "inbuf": b"", "used": 0}
         return conns[n]
 
     def emit(c, text):
@@ -309,6 +309,8 @@ def derive(lines, stderr):
         if k == "STEP":
             step = int(w[1])
             stepcmd = " ".join(w[2:])
+            if len(w) > 4 and w[2] in ("IN", "+IN") and w[3].startswith("c"):
+                conn(w[3])["inbuf"] += simlog.unhex(w[4])
         elif k == "PRETERM":
             for c in conns.values():
                 c["ev"].append((step, "term"))
@@ -384,6 +386,8 @@ def derive(lines, stderr):
             cur = c
             f = dict(x.split("=", 1) for x in w[2:])
             parsed = f["nparsed"] == f["len"]
+            chunk = c["inbuf"][c["used"]:c["used"] + int(f["len"])]
+            c["used"] += int(f["len"])
             if c["phase"] == "start":
                 # what did create do? look ahead to the next parser call / step
                 create, sawfail, j = None, False, i + 1
@@ -398,7 +402,11 @@ def derive(lines, stderr):
                 valid = c["url"] is not None
                 if create is None:
                     create = "peermem" if (sawfail and parsed and found) else "ok"
-                emit(c, "startline %d %d %d %s" % (parsed, found, valid, create))
+                # header data behind the request line: something follows the first LF that ends a non-empty line
+                body = chunk.lstrip(b"\r\n")
+                lf = body.find(b"\n")
+                hdata = 0 <= lf < len(body) - 1
+                emit(c, "startline %d %d %d %d %s" % (parsed, found, valid, hdata, create))
                 c["url"] = None
                 if not parsed:
                     c["phase"] = "done"
@@ -636,19 +644,22 @@ def do_run(exs):
     return a
 
 
+CALIB_SCRIPT = ["QUIESCE", "CONNECT http local4", "QUIESCE", "IN c0 " + ("GET %s HTTP/1.1\r\n" % TARGET).encode().hex(), "QUIESCE", "TERM"]
+
+
 def calibrate(binp):
     """accounted heap of a connection that reads its request line (connection + buffered socket) and of one in the header
-    phase (+ websocket_peer + routing table), measured on this binary"""
-    start = ("GET %s HTTP/1.1\r\n" % TARGET).encode()
-    r = simk.run(binp, ["QUIESCE", "CONNECT http local4", "QUIESCE", "IN c0 " + start.hex(), "QUIESCE", "TERM"])
+    phase (+ websocket_peer + routing table), measured on this binary.  Returns (h1, h2) or None with the run when the
+    daemon does not even survive this."""
+    r = simk.run(binp, CALIB_SCRIPT)
     log = simlog.Log(r["lines"])
-    if r["sanitizer"] or len(log.snaps) != 3:
-        raise RuntimeError("calibration run failed: %s %s" % (r["sanitizer"], r["lines"][-5:]))
+    if r["sanitizer"] or log.faults or len(log.snaps) != 3:
+        return None, r
     h1 = log.snaps[1]["heap"] - log.snaps[0]["heap"]
     h2 = log.snaps[2]["heap"] - log.snaps[0]["heap"]
     if not (0 < h1 < h2) or log.snaps[2]["peers"] != log.snaps[0]["peers"] + 1:
-        raise RuntimeError("calibration: unexpected ledger %s" % log.snaps)
-    return h1, h2
+        return None, r
+    return (h1, h2), r
 
 
 # ------------------------------------------------------------------------------------------------ generation
@@ -845,7 +856,19 @@ def run(ctx, out):
     t0 = time.time()
     binp = simk.build()
     msgsize = int(C.config_values("default").get("CONFIG_MAX_MESSAGE_SIZE", 512))
-    calib = calibrate(binp)
+    calib, cres = calibrate(binp)
+    if calib is None:
+        # accept, request line, SIGTERM: the smallest scenario there is already fails
+        log = simlog.Log(cres["lines"])
+        what = cres["sanitizer"] or (log.faults[0] if log.faults else "unexpected ledger at the snapshots: %s" % [
+            (s["peers"], s["heap"], s["fds"]) for s in log.snaps])
+        out.violation("C13 accept + request line + SIGTERM: %s" % what[:300],
+                      {"property": "C13", "failing_clause": "sanitizer" if cres["sanitizer"] else "hygiene/ledger", "detail": [what],
+                       "script": CALIB_SCRIPT, "variant": "default", "seed": C.base_seed(), "implementation_log": cres["lines"][-200:],
+                       "stderr": cres["stderr"][-3000:]})
+        out.coverage.update({"traces_validated_against_impl": 1, "evaluations": 1, "distinct_nontrivial": 1,
+                             "rule": "the calibration scenario failed; nothing else was run"})
+        return
     exs = generate(ctx, msgsize)
     # de-duplicate
     seen, uniq = set(), []
@@ -930,7 +953,7 @@ def run(ctx, out):
         "exhaustive": {"truncation points of the valid request (x EOF/RST)": True,
                        "single-byte corruption positions of the valid request": True,
                        "replacement bytes per position (9 operators)": bool(ctx.thorough),
-                       "model: Accept x startLine(2^3 x 3) x headerLine(2^2 x 3) outcomes by case split in the proofs": True},
+                       "model: Accept(5) x startLine(2^4 x 3) x headerLine(2^2 x 3) outcomes by case split in the proofs": True},
         "tie_wall_s": round(time.time() - t0, 1),
     })
     out.assumptions += [
@@ -955,7 +978,8 @@ def report(out, what, exs, a):
               "stderr": a.get("stderr"), "exchanges": [e.replay() for e in exs] if exs else None,
               "replay_with": "python3 -c \"from vlib import simk; print('\\n'.join(simk.run(simk.build(), SCRIPT)['lines']))\""}
     if a["prop"]:
-        out.violation("C13 %s: %s" % (what, a["prop"][0][1][:300]), replay)
+        txt = a["prop"][0][1]
+        out.violation("C13 %s" % (txt[:300] if txt.startswith(what.split(" (unsegmented)")[0]) else "%s: %s" % (what, txt[:300])), replay)
     else:
         replay["no_longer_checks"] = "correspondence Cjet.Http <-> daemon (clause `%s`); theorems of Cjet.Props.C13 are about the model" % clause[0]
         out.violation("C13 %s: model and implementation differ: %s" % (what, a["model"][0][1][:300]), replay, no_input=True)
